@@ -164,7 +164,13 @@ func (b *ASTBuilder) buildNode(tsNode *sitter.Node) *Node {
 		return b.buildAwait(tsNode)
 	case "identifier":
 		return b.buildName(tsNode)
-	case "integer", "float", "string", "concatenated_string", "true", "false", "none":
+	case "string":
+		// An f-string is a string node with interpolation children
+		if b.hasChildOfType(tsNode, "interpolation") {
+			return b.buildFormattedString(tsNode)
+		}
+		return b.buildConstant(tsNode)
+	case "integer", "float", "concatenated_string", "true", "false", "none":
 		return b.buildConstant(tsNode)
 	case "formatted_string", "interpolation":
 		return b.buildFormattedString(tsNode)
@@ -473,8 +479,15 @@ func (b *ASTBuilder) buildWithStatement(tsNode *sitter.Node) *Node {
 	for i := 0; i < childCount; i++ {
 		child := tsNode.Child(i)
 		if child != nil && child.Type() == "with_clause" {
-			if withItem := b.buildWithItem(child); withItem != nil {
-				node.AddChild(withItem)
+			// One WithItem per with_item of the clause
+			itemCount := int(child.ChildCount())
+			for j := 0; j < itemCount; j++ {
+				item := child.Child(j)
+				if item != nil && item.Type() == "with_item" {
+					if withItem := b.buildWithItem(item); withItem != nil {
+						node.AddChild(withItem)
+					}
+				}
 			}
 		}
 	}
@@ -927,7 +940,8 @@ func (b *ASTBuilder) buildUnaryOp(tsNode *sitter.Node) *Node {
 		node.Op = b.getNodeText(operator)
 	}
 
-	if operand := b.getChildByFieldName(tsNode, "operand"); operand != nil {
+	// tree-sitter-python names the operand of a unary_operator "argument"
+	if operand := b.getChildByFieldName(tsNode, "argument"); operand != nil {
 		node.Value = b.buildNode(operand)
 	}
 
@@ -1079,7 +1093,8 @@ func (b *ASTBuilder) buildSubscript(tsNode *sitter.Node) *Node {
 	node := NewNode(NodeSubscript)
 	node.Location = b.getLocation(tsNode)
 
-	if value := b.getChildByFieldName(tsNode, "object"); value != nil {
+	// tree-sitter-python names the subscripted expression "value"
+	if value := b.getChildByFieldName(tsNode, "value"); value != nil {
 		node.Value = b.buildNode(value)
 	}
 
@@ -1172,6 +1187,11 @@ func (b *ASTBuilder) buildDict(tsNode *sitter.Node) *Node {
 			}
 			if value := b.getChildByFieldName(child, "value"); value != nil {
 				node.AddChild(b.buildNode(value))
+			}
+		} else if child != nil && child.Type() == "dictionary_splat" {
+			// {**mapping}: keep the unpacked expression
+			if expr := child.NamedChild(0); expr != nil {
+				node.AddChild(b.buildNode(expr))
 			}
 		}
 	}
@@ -1559,17 +1579,21 @@ func (b *ASTBuilder) buildWithItem(tsNode *sitter.Node) *Node {
 	node := NewNode(NodeWithItem)
 	node.Location = b.getLocation(tsNode)
 
-	if item := b.getChildByFieldName(tsNode, "item"); item != nil {
-		node.Value = b.buildNode(item)
-	}
-
-	childCount := int(tsNode.ChildCount())
-	for i := 0; i < childCount; i++ {
-		child := tsNode.Child(i)
-		if child != nil && child.Type() == "as_pattern" {
-			if alias := b.getChildByFieldName(child, "alias"); alias != nil {
-				node.Name = b.getNodeText(alias)
+	// with_item has a single "value" field: the context expression, or an
+	// as_pattern holding the expression and its "alias" target
+	if value := b.getChildByFieldName(tsNode, "value"); value != nil {
+		if value.Type() == "as_pattern" {
+			if expr := value.NamedChild(0); expr != nil {
+				node.Value = b.buildNode(expr)
 			}
+			if alias := b.getChildByFieldName(value, "alias"); alias != nil {
+				node.Name = b.getNodeText(alias)
+				if target := alias.NamedChild(0); target != nil {
+					node.Targets = append(node.Targets, b.buildNode(target))
+				}
+			}
+		} else {
+			node.Value = b.buildNode(value)
 		}
 	}
 
